@@ -198,8 +198,8 @@ theorem histo_writeForLine_inv (U : UnitLaws A Dom Unit le) (env : Env) (h : His
     · rw [e, histo_lineText_items]
       exact hk i _ hne (hinv.drawn i k v h')
 
-/-- a line number beyond the histogram is ignored -/
-theorem histo_writeForLine_beyond (env : Env) (h : Histo) (vt : VirtualTerm) (n : Nat) (key : Bytes) (val : Int) (hn : h.items.length < n) :
+/-- a line number at or beyond the end of the histogram is ignored -/
+theorem histo_writeForLine_beyond (env : Env) (h : Histo) (vt : VirtualTerm) (n : Nat) (key : Bytes) (val : Int) (hn : h.items.length ≤ n) :
     h.writeForLine A env vt (n : Int) key val = .ok (h, vt) := by
   unfold Histo.writeForLine
   rw [if_pos (by omega)]; rfl
@@ -216,11 +216,10 @@ theorem histo_updateTotal_inv (U : UnitLaws A Dom Unit le) (env : Env) (h : Hist
 
 /- `HistoOp`, `Histo.applyOp`, `Histo.runOps` (a call on a `HistoWriter`, a sequence of calls) are in `Rare/Model/C14.lean`; the driver runs them. -/
 
-/-- the call is one the model answers without panic: the value is in the domain of the float instance and the
-line is not exactly `len(items)` (the real `WriteForLine` indexes out of range there – `line > len(items)` is its
-guard; the commands never pass more lines than `NewHistogram` was given) -/
-def HistoOp.Valid (Dom : Int → Prop) (len : Nat) : HistoOp → Prop
-  | .line n _ val => n ≠ len ∧ Dom val
+/-- the call is one the float instance handles: the value is in its domain.  ANY line number is fine (after 4855857 a
+line at or beyond `len(items)` is ignored; before, `line == len(items)` indexed out of range and had to be excluded here) -/
+def HistoOp.Valid (Dom : Int → Prop) : HistoOp → Prop
+  | .line _ _ val => Dom val
   | .total _ => True
 
 /-- the writer's state after a call (a pure function of the call) -/
@@ -264,11 +263,11 @@ theorem histo_stateAfterAll_config (env : Env) : ∀ (ops : List HistoOp) (h : H
     exact ⟨c1.trans c2, Int.le_trans m1 m2, Int.le_trans t1 t2⟩
 
 theorem histo_applyOp_inv (U : UnitLaws A Dom Unit le) (env : Env) (h : Histo) (vt : VirtualTerm) (hinv : HistoInv A Dom env h vt)
-    (op : HistoOp) (hv : op.Valid Dom h.items.length) :
+    (op : HistoOp) (hv : op.Valid Dom) :
     ∃ vt', Histo.applyOp A env (h, vt) op = .ok (h.stateAfter env op, vt') ∧ HistoInv A Dom env (h.stateAfter env op) vt' := by
   cases op with
   | line n key val =>
-    obtain ⟨hne, hd⟩ := hv
+    have hd : Dom val := hv
     rw [histo_stateAfter_line]
     by_cases hn : n < h.items.length
     · rw [if_pos hn]
@@ -279,7 +278,7 @@ theorem histo_applyOp_inv (U : UnitLaws A Dom Unit le) (env : Env) (h : Histo) (
 
 /-- the redraw invariant is preserved by EVERY sequence of `WriteForLine` / `UpdateTotal` calls -/
 theorem histo_runOps_inv (U : UnitLaws A Dom Unit le) (env : Env) : ∀ (ops : List HistoOp) (h : Histo) (vt : VirtualTerm),
-    HistoInv A Dom env h vt → (∀ op ∈ ops, op.Valid Dom h.items.length) →
+    HistoInv A Dom env h vt → (∀ op ∈ ops, op.Valid Dom) →
     ∃ vt', Histo.runOps A env (h, vt) ops = .ok (h.stateAfterAll env ops, vt') ∧ HistoInv A Dom env (h.stateAfterAll env ops) vt' := by
   intro ops
   induction ops with
@@ -287,9 +286,8 @@ theorem histo_runOps_inv (U : UnitLaws A Dom Unit le) (env : Env) : ∀ (ops : L
   | cons op rest ih =>
     intro h vt hinv hv
     obtain ⟨vt1, h1, hinv1⟩ := histo_applyOp_inv U env h vt hinv op (hv op (by simp))
-    have hlen : (h.stateAfter env op).items.length = h.items.length := (histo_stateAfter_config env h op).1.2.2.2.2
     obtain ⟨vt2, h2, hinv2⟩ := ih (h.stateAfter env op) vt1 hinv1 (by
-      intro o ho; rw [hlen]; exact hv o (by simp [ho]))
+      intro o ho; exact hv o (by simp [ho]))
     refine ⟨vt2, ?_, hinv2⟩
     unfold Histo.runOps
     rw [List.foldlM_cons, h1]
